@@ -1278,14 +1278,19 @@ def abstract_run(fn, init_env, tracked=None, start=None, call_effect=None, max_s
         b = fn.blocks[bid]
         for ev in b.events:
             visits.append((ev, dict(env)))
+            skip_default = False
             if effect is not None:
                 upd = effect(ev, env)
                 if upd:
                     for k2, v2 in upd.items():
-                        if v2 is TOP:
+                        if k2 == '#skip':
+                            skip_default = bool(v2)
+                        elif v2 is TOP:
                             env.pop(k2, None)
                         else:
                             env[k2] = v2
+            if skip_default:
+                continue
             if ev.kind == 'STORE':
                 ls = estr(ev.lhs)
                 if ls in tracked:
